@@ -93,7 +93,7 @@ class ProcessorThatStoresResultInFilesInDirAndReadsStderrOnNonZeroExitCode(Comma
         if result.exit_code == 0:
             return None
 
-        with result.files.path_of_result(ResultFile.STD_ERR).open('r') as f:
+        with result.files.path_of_result(ResultFile.STD_ERR).open('r', errors='replace') as f:
             return self._stderr_msg_reader.read(f)
 
 
@@ -144,5 +144,5 @@ class ProcessorThatReadsStderrOnNonZeroExitCode(CommandProcessor[Result]):
         if exit_code == 0:
             return None
 
-        with stderr_path.open('r') as f:
+        with stderr_path.open('r', errors='replace') as f:
             return self._stderr_msg_reader.read(f)
